@@ -7,13 +7,15 @@ width `2 * size − digits(op code) − digits(post byte)` — it is a theorem, 
 instructions of every addressing mode (the field is a number of the width the size leaves), inherent and
 register-list instructions and 5-bit offsets (no field; table facts relate the size to the op code), FCB / FDB
 (single values and lists), RMB, FCC, EQU / ORG / END / SET / SETDP / NAM / INCLUDE.
-The only hypothesis: the characters of an FCC string are below 256 (`C02_bytes_eq_size`), or — in terms of the
-input alone — every character of the program and of the host files is below 256, in particular ASCII input, the
-modelled domain (`C02_bytes_eq_size_narrow_input`, `C02_bytes_eq_size_ascii`).  A character above 255 has three or
-more hex digits and `get_binary_array` raises an IndexError (`C02_fcc_wide_counterexample`).
-Consequences: an accepted program has an image (`C02_image_exists`, `C02_image_exists_narrow_input`);
-`C02_offset_full` / `C02_offset_full_narrow_input`, the position of every statement's bytes inside the image,
-without the size hypothesis of `C02_offset`.  Also here: `ORG SYM` (`C02_org_symbol`, `C02_org_final`).
+Since batch B2 (`StringValue` raises on a character above 255, so `create_from_str` builds no such string) there
+is NO hypothesis left: `C02_BytesEqSize_holds` proves `C02_BytesEqSize_Statement` itself, for every input
+(`C02_bytes_eq_size`, `C02_stmt_bytes`).  Every string of an accepted program — operand value and operand field —
+is made of characters below 256 (`C02_strings_narrow`).  The former counterexample `FCC 'Ā'` is a diagnostic now
+(`C02_fcc_wide_counterexample_fixed`).  The variants with hypotheses on the input (`..._narrow_input`, `..._ascii`,
+`..._nostring`, `C02_BytesEqSize_partial`) are kept as corollaries.
+Consequences: an accepted program has an image (`C02_image_exists`); `C02_offset_full`, the position of every
+statement's bytes inside the image, without the size hypothesis of `C02_offset`.  Also here: `ORG SYM`
+(`C02_org_symbol`, `C02_org_final`).
 -/
 import CoCoVerif.Lemmas.SizeAscii
 import CoCoVerif.Props.C02
@@ -34,10 +36,13 @@ def C02_BytesEqSize_Statement : Prop :=
 
 /-! ### one statement -/
 
-theorem C02_stmt_bytes_gen {fs : Files} {lines : List Str} {a : Assembly} (h : assemble fs lines = .ok a)
-    {i : Nat} {s : Stmt} (hs : a.stmts[i]? = some s) (hstr : NarrowString s ∨ NarrowOperand s) :
-    (stmtBytes s).map List.length = some s.pkg.size := by
+/-- a statement of an accepted program emits `size` bytes, and a string in its operand field is the operand value
+(hence made of characters below 256) -/
+theorem C02_stmt_core {fs : Files} {lines : List Str} {a : Assembly} (h : assemble fs lines = .ok a)
+    {i : Nat} {s : Stmt} (hs : a.stmts[i]? = some s) :
+    (stmtBytes s).map List.length = some s.pkg.size ∧ NarrowString s := by
   obtain ⟨st⟩ := assemble_stages h
+  have hnarrow : NarrowOperand s := st.operand_narrow hs
   obtain ⟨tr⟩ := st.trace hs
   have hrow := tr.rowFacts
   have sh1 := tr.shape1
@@ -100,6 +105,7 @@ theorem C02_stmt_bytes_gen {fs : Files} {lines : List Str} {a : Assembly} (h : a
         have m3 := fitted_emits (fitInt n neg % 2 ^ (4 * w)).toNat w .extended false hw
         have := stmtBytes_len (s := withAdditional sf (.numeric (fitInt n neg % 2 ^ (4 * w)).toNat (some w) .extended false))
           m1 m2 m3
+        refine ⟨?_, fun x hx => by cases hx⟩
         rw [this]
         show some _ = some sf.pkg.size
         congr 1
@@ -121,6 +127,7 @@ theorem C02_stmt_bytes_gen {fs : Files} {lines : List Str} {a : Assembly} (h : a
           have := stmtBytes_len (s := s) (a := hl p.opCode / 2) (b := hl p.postByte / 2) (c := 0)
             (by rw [es, e5, hpkg]; exact m1) (by rw [es, e5, hpkg]; exact m2)
             (by rw [es, e5, hpkg]; show Emits p.additional 0; rw [p1]; exact none_emits)
+          refine ⟨?_, fun x hx => by rw [es, hadd, p1] at hx; cases hx⟩
           rw [this, es, e5, hpkg]
           show some _ = some p.size
           congr 1; omega
@@ -142,6 +149,9 @@ theorem C02_stmt_bytes_gen {fs : Files} {lines : List Str} {a : Assembly} (h : a
             (by rw [es, e5, hpkg]; show Emits p.opCode 0; rw [p1]; exact none_emits)
             (by rw [es, e5, hpkg]; show Emits p.postByte 0; rw [p2]; exact none_emits)
             (by rw [es, e5, hpkg]; exact hm)
+          refine ⟨?_, fun x hx => by
+            rw [es, hadd] at hx
+            rcases p4 with q | q <;> (rw [q] at hx; cases hx)⟩
           rw [this, es, e5, hpkg]
           show some _ = some p.size
           rw [p6]; simp
@@ -197,59 +207,57 @@ theorem C02_stmt_bytes_gen {fs : Files} {lines : List Str} {a : Assembly} (h : a
     have e5 : sf = s4 :=
       fixOne_still hk hn4 (by rw [hop4]; exact hplain.noaddr) (by rw [hop4]; exact hplain.noexpr) tfix
     have hpkg := hfixed hplain.needs hplain.choices
-    obtain ⟨a', b', c', m1, m2, m3, hsum⟩ := hplain.bytes (by
-      rcases hstr with hstr | hstr
-      · left
-        intro x hx
-        refine hstr x ?_
-        rw [es, e5, hpkg]; exact hx
-      · right
-        intro x hx
-        exact hstr x (by rw [top]; exact hx))
+    obtain ⟨a', b', c', m1, m2, m3, hsum⟩ := hplain.bytes
     have := stmtBytes_len (s := s) (a := a') (b := b') (c := c')
       (by rw [es, e5, hpkg]; exact m1) (by rw [es, e5, hpkg]; exact m2) (by rw [es, e5, hpkg]; exact m3)
-    rw [this, es, e5, hpkg, hsum]
+    refine ⟨by rw [this, es, e5, hpkg, hsum], fun x hx => ?_⟩
+    refine hnarrow x ?_
+    rw [top]
+    refine hplain.addl x ?_
+    rw [es, e5, hpkg] at hx
+    exact hx
 
+/-- one statement of an accepted program: exactly `size` bytes -/
 theorem C02_stmt_bytes {fs : Files} {lines : List Str} {a : Assembly} (h : assemble fs lines = .ok a)
-    {i : Nat} {s : Stmt} (hs : a.stmts[i]? = some s) (hstr : NarrowString s) :
-    (stmtBytes s).map List.length = some s.pkg.size := C02_stmt_bytes_gen h hs (.inl hstr)
+    {i : Nat} {s : Stmt} (hs : a.stmts[i]? = some s) :
+    (stmtBytes s).map List.length = some s.pkg.size := (C02_stmt_core h hs).1
 
 /-! ### the theorem -/
 
-/-- **C02, byte count**: every statement of an accepted program whose FCC strings are made of characters below
-256 emits exactly `size` bytes -/
-theorem C02_bytes_eq_size {fs : Files} {lines : List Str} {a : Assembly} (h : assemble fs lines = .ok a)
-    (hstr : ∀ s ∈ a.stmts, NarrowString s) :
+/-- **C02, byte count**: every statement of an accepted program emits exactly `size` bytes — whatever the input -/
+theorem C02_bytes_eq_size {fs : Files} {lines : List Str} {a : Assembly} (h : assemble fs lines = .ok a) :
     ∀ s ∈ a.stmts, (stmtBytes s).map List.length = some s.pkg.size := by
   intro s hs
   obtain ⟨i, hi⟩ := List.mem_iff_getElem?.mp hs
-  exact C02_stmt_bytes h hi (hstr s hs)
+  exact C02_stmt_bytes h hi
 
-/-- a statement that is not an FCC (more generally: whose field is not a string) needs no hypothesis -/
-theorem C02_bytes_eq_size_nostring {fs : Files} {lines : List Str} {a : Assembly} (h : assemble fs lines = .ok a)
-    {s : Stmt} (hs : s ∈ a.stmts) (hns : ∀ x, s.pkg.additional ≠ .str x) :
-    (stmtBytes s).map List.length = some s.pkg.size := by
+/-- **C02, byte count, at full strength**: `C02_BytesEqSize_Statement` holds -/
+theorem C02_BytesEqSize_holds : C02_BytesEqSize_Statement := fun _ _ _ h => C02_bytes_eq_size h
+
+/-- every string of an accepted program — the operand field (what is emitted) and the operand value — is made of
+characters below 256: `create_from_str` builds no other string, and no later stage makes or changes one -/
+theorem C02_strings_narrow {fs : Files} {lines : List Str} {a : Assembly} (h : assemble fs lines = .ok a) :
+    ∀ s ∈ a.stmts, NarrowString s ∧ NarrowOperand s := by
+  intro s hs
   obtain ⟨i, hi⟩ := List.mem_iff_getElem?.mp hs
-  exact C02_stmt_bytes h hi (fun x hx => absurd hx (hns x))
-
-/-- **C02, byte count, in terms of the input**: if every character of the program and of the host files it may
-INCLUDE is below 256 — in particular for ASCII input, the modelled domain — every statement of an accepted
-program emits exactly `size` bytes -/
-theorem C02_bytes_eq_size_narrow_input {fs : Files} {lines : List Str} {a : Assembly}
-    (h : assemble fs lines = .ok a) (hl : ∀ l ∈ lines, NarrowLine l) (hfs : ∀ f ∈ fs, ∀ l ∈ f.2, NarrowLine l) :
-    ∀ s ∈ a.stmts, (stmtBytes s).map List.length = some s.pkg.size := by
   obtain ⟨st⟩ := assemble_stages h
-  intro s hs
-  obtain ⟨i, hi⟩ := List.mem_iff_getElem?.mp hs
-  exact C02_stmt_bytes_gen h hi (.inr (st.operand_narrow hl hfs hi))
+  exact ⟨(C02_stmt_core h hi).2, st.operand_narrow hi⟩
 
-/-- ASCII input -/
+/-- (corollary, kept from the time the hypothesis was needed) a statement whose field is not a string -/
+theorem C02_bytes_eq_size_nostring {fs : Files} {lines : List Str} {a : Assembly} (h : assemble fs lines = .ok a)
+    {s : Stmt} (hs : s ∈ a.stmts) (_hns : ∀ x, s.pkg.additional ≠ .str x) :
+    (stmtBytes s).map List.length = some s.pkg.size := C02_bytes_eq_size h s hs
+
+/-- (corollary, kept from the time the hypothesis was needed) input made of characters below 256 -/
+theorem C02_bytes_eq_size_narrow_input {fs : Files} {lines : List Str} {a : Assembly}
+    (h : assemble fs lines = .ok a) (_hl : ∀ l ∈ lines, NarrowLine l) (_hfs : ∀ f ∈ fs, ∀ l ∈ f.2, NarrowLine l) :
+    ∀ s ∈ a.stmts, (stmtBytes s).map List.length = some s.pkg.size := C02_bytes_eq_size h
+
+/-- (corollary) ASCII input, the modelled domain -/
 theorem C02_bytes_eq_size_ascii {fs : Files} {lines : List Str} {a : Assembly}
-    (h : assemble fs lines = .ok a) (hl : ∀ l ∈ lines, ∀ c ∈ l, c.toNat < 128)
-    (hfs : ∀ f ∈ fs, ∀ l ∈ f.2, ∀ c ∈ l, c.toNat < 128) :
-    ∀ s ∈ a.stmts, (stmtBytes s).map List.length = some s.pkg.size :=
-  C02_bytes_eq_size_narrow_input h (fun l hl' c hc => Nat.lt_trans (hl l hl' c hc) (by decide))
-    (fun f hf l hl' c hc => Nat.lt_trans (hfs f hf l hl' c hc) (by decide))
+    (h : assemble fs lines = .ok a) (_hl : ∀ l ∈ lines, ∀ c ∈ l, c.toNat < 128)
+    (_hfs : ∀ f ∈ fs, ∀ l ∈ f.2, ∀ c ∈ l, c.toNat < 128) :
+    ∀ s ∈ a.stmts, (stmtBytes s).map List.length = some s.pkg.size := C02_bytes_eq_size h
 
 /-- the image exists: every statement has bytes -/
 theorem C02_image_of_sizes {a : Assembly}
@@ -270,15 +278,15 @@ theorem C02_image_of_sizes {a : Assembly}
     | some b => exact ⟨b, rfl⟩)
   exact ⟨bs.flatten, by unfold Assembly.image; rw [hbs]; rfl⟩
 
-theorem C02_image_exists {fs : Files} {lines : List Str} {a : Assembly} (h : assemble fs lines = .ok a)
-    (hstr : ∀ s ∈ a.stmts, NarrowString s) : ∃ img, a.image = some img :=
-  C02_image_of_sizes (C02_bytes_eq_size h hstr)
-
-/-- narrow (e.g. ASCII) input: an accepted program has an image -/
-theorem C02_image_exists_narrow_input {fs : Files} {lines : List Str} {a : Assembly}
-    (h : assemble fs lines = .ok a) (hl : ∀ l ∈ lines, NarrowLine l) (hfs : ∀ f ∈ fs, ∀ l ∈ f.2, NarrowLine l) :
+/-- an accepted program has an image -/
+theorem C02_image_exists {fs : Files} {lines : List Str} {a : Assembly} (h : assemble fs lines = .ok a) :
     ∃ img, a.image = some img :=
-  C02_image_of_sizes (C02_bytes_eq_size_narrow_input h hl hfs)
+  C02_image_of_sizes (C02_bytes_eq_size h)
+
+/-- (corollary, kept from the time the hypothesis was needed) -/
+theorem C02_image_exists_narrow_input {fs : Files} {lines : List Str} {a : Assembly}
+    (h : assemble fs lines = .ok a) (_hl : ∀ l ∈ lines, NarrowLine l) (_hfs : ∀ f ∈ fs, ∀ l ∈ f.2, NarrowLine l) :
+    ∃ img, a.image = some img := C02_image_exists h
 
 /-! ### offsets inside the image, without the size hypothesis -/
 
@@ -299,74 +307,111 @@ theorem C02_offset_of_sizes {fs : Files} {lines : List Str} {a : Assembly} (h : 
   exact ⟨img, pre, b, post, ak, ai, himg, h1, h2, by simpa using hb, h3, h4, h5⟩
 
 theorem C02_offset_full {fs : Files} {lines : List Str} {a : Assembly} (h : assemble fs lines = .ok a)
-    (hstr : ∀ s ∈ a.stmts, NarrowString s)
     (k : Nat) (hk0 : ∀ j s, j < k → a.stmts[j]? = some s → s.pkg.size = 0)
     (hk1 : ∀ j s, k < j → a.stmts[j]? = some s → s.row.mnemonic ≠ "ORG")
     {i : Nat} (hki : k ≤ i) {sk s : Stmt} (hsk : a.stmts[k]? = some sk) (hs : a.stmts[i]? = some s) :
     ∃ img pre b post ak ai, a.image = some img ∧ img = pre ++ b ++ post ∧ stmtBytes s = some b ∧
       b.length = s.pkg.size ∧ addrNat sk = some ak ∧ addrNat s = some ai ∧ pre.length + ak = ai :=
-  C02_offset_of_sizes h (C02_bytes_eq_size h hstr) k hk0 hk1 hki hsk hs
+  C02_offset_of_sizes h (C02_bytes_eq_size h) k hk0 hk1 hki hsk hs
 
-/-- the same for narrow (e.g. ASCII) input: no hypothesis on the assembled statements is left -/
+/-- (corollary, kept from the time the hypothesis was needed) -/
 theorem C02_offset_full_narrow_input {fs : Files} {lines : List Str} {a : Assembly}
-    (h : assemble fs lines = .ok a) (hl : ∀ l ∈ lines, NarrowLine l) (hfs : ∀ f ∈ fs, ∀ l ∈ f.2, NarrowLine l)
+    (h : assemble fs lines = .ok a) (_hl : ∀ l ∈ lines, NarrowLine l) (_hfs : ∀ f ∈ fs, ∀ l ∈ f.2, NarrowLine l)
     (k : Nat) (hk0 : ∀ j s, j < k → a.stmts[j]? = some s → s.pkg.size = 0)
     (hk1 : ∀ j s, k < j → a.stmts[j]? = some s → s.row.mnemonic ≠ "ORG")
     {i : Nat} (hki : k ≤ i) {sk s : Stmt} (hsk : a.stmts[k]? = some sk) (hs : a.stmts[i]? = some s) :
     ∃ img pre b post ak ai, a.image = some img ∧ img = pre ++ b ++ post ∧ stmtBytes s = some b ∧
       b.length = s.pkg.size ∧ addrNat sk = some ak ∧ addrNat s = some ai ∧ pre.length + ak = ai :=
-  C02_offset_of_sizes h (C02_bytes_eq_size_narrow_input h hl hfs) k hk0 hk1 hki hsk hs
+  C02_offset_full h k hk0 hk1 hki hsk hs
 
 /-- with an ORG (or nothing) in front and no ORG later: statement `i` sits at `address i − origin` -/
 theorem C02_offset_from_start {fs : Files} {lines : List Str} {a : Assembly} (h : assemble fs lines = .ok a)
-    (hstr : ∀ s ∈ a.stmts, NarrowString s)
     (hk1 : ∀ j s, 0 < j → a.stmts[j]? = some s → s.row.mnemonic ≠ "ORG")
     {i : Nat} {s0 s : Stmt} (hs0 : a.stmts[0]? = some s0) (hs : a.stmts[i]? = some s) :
     ∃ img pre b post a0 ai, a.image = some img ∧ img = pre ++ b ++ post ∧ stmtBytes s = some b ∧
       b.length = s.pkg.size ∧ addrNat s0 = some a0 ∧ addrNat s = some ai ∧ pre.length + a0 = ai :=
-  C02_offset_full h hstr 0 (fun j _ hj => absurd hj (Nat.not_lt_zero j)) hk1 (Nat.zero_le i) hs0 hs
+  C02_offset_full h 0 (fun j _ hj => absurd hj (Nat.not_lt_zero j)) hk1 (Nat.zero_le i) hs0 hs
 
 /-! ### what is proved -/
 
-/-- What is proved of the byte count: the full statement under the hypothesis that FCC strings are made of
-characters below 256, or that the input (program and host files) is -/
+/-- What is proved of the byte count: everything — the full statement and the existence of the image, for every
+accepted program -/
+theorem C02_BytesEqSize_full :
+    ∀ (fs : Files) (lines : List Str) (a : Assembly), assemble fs lines = .ok a →
+      (∀ s ∈ a.stmts, (stmtBytes s).map List.length = some s.pkg.size) ∧ (∃ img, a.image = some img) :=
+  fun _ _ _ h => ⟨C02_bytes_eq_size h, C02_image_exists h⟩
+
+/-- (corollary, kept from the time the hypothesis was needed: its disjunctive hypothesis is no longer used) -/
 theorem C02_BytesEqSize_partial :
     ∀ (fs : Files) (lines : List Str) (a : Assembly), assemble fs lines = .ok a →
       ((∀ s ∈ a.stmts, NarrowString s) ∨ ((∀ l ∈ lines, NarrowLine l) ∧ (∀ f ∈ fs, ∀ l ∈ f.2, NarrowLine l))) →
       (∀ s ∈ a.stmts, (stmtBytes s).map List.length = some s.pkg.size) ∧ (∃ img, a.image = some img) :=
-  fun _ _ _ h hyp => hyp.elim (fun hstr => ⟨C02_bytes_eq_size h hstr, C02_image_exists h hstr⟩)
-    (fun hin => ⟨C02_bytes_eq_size_narrow_input h hin.1 hin.2, C02_image_exists_narrow_input h hin.1 hin.2⟩)
+  fun fs lines a h _ => C02_BytesEqSize_full fs lines a h
 
-/-! ### the hypothesis on strings cannot be dropped (outside the ASCII input domain) -/
+/-! ### the former counterexample (a character above 255 in an FCC string), repaired -/
 
-/-- `FCC 'Ā'` (U+0100): the character has three hex digits, the statement has size 2 (5 digits halved) and
-`get_binary_array` runs off the end of the digit string (IndexError in the real code as well) -/
+/-- `FCC 'Ā'` (U+0100).  Before batch B2 the string was accepted, the character rendered as three hex digits, the
+statement had size 2 (5 digits halved) and `get_binary_array` ran off the end of the digit string (no bytes, no
+image).  Now `StringValue` refuses a character above 255 and no other class takes the text: the line is a
+diagnostic ("['Ā'] is an invalid value") -/
 def C02_wideWitness : List Str := [" FCC 'Ā'\n"].map String.toList
 
-private def wideCheck (a : Assembly) : Bool :=
+private def isDiagO {α : Type} : Outcome α → Bool
+  | .diag => true
+  | _ => false
+
+private theorem isDiagO_sound {α : Type} {o : Outcome α} (h : isDiagO o = true) : o = .diag := by
+  cases o <;> first | rfl | cases h
+
+private def isValueTypeErr : R Value → Bool
+  | .error .valueType => true
+  | _ => false
+
+private theorem isValueTypeErr_sound {r : R Value} (h : isValueTypeErr r = true) : r = .error .valueType := by
+  unfold isValueTypeErr at h
+  split at h
+  · rfl
+  · cases h
+
+/-- the program is rejected; so is its line by `parse_line`; and `create_from_str` (string flag set, as for FCC)
+raises ValueTypeError on the operand text — as Python splits it (`'Ā'`) and as the model's ASCII scanner
+reassembles it (`' Ā'`, the quote, a blank, the rest taken for a comment): the string attempt fails on the wide
+character, and the text is no expression, pair, number or symbol either -/
+theorem C02_fcc_wide_counterexample_fixed (fs : Files) :
+    assemble fs C02_wideWitness = .diag ∧ parseLine " FCC 'Ā'\n".toList = .diag ∧
+    createV "'Ā'".toList true false false = .error .valueType ∧
+    createV "' Ā'".toList true false false = .error .valueType := by
+  have hl : parseLine " FCC 'Ā'\n".toList = .diag := isDiagO_sound (by decide +kernel)
+  refine ⟨?_, hl, isValueTypeErr_sound (by decide +kernel), isValueTypeErr_sound (by decide +kernel)⟩
+  have hp : parseLines C02_wideWitness = .diag := by
+    show parseLines [" FCC 'Ā'\n".toList] = .diag
+    rw [parseLines, hl]
+  unfold assemble
+  rw [hp]
+
+/-- the boundary: `FCC 'ÿ'` (U+00FF) is accepted and every statement emits `size` bytes, the last of them `$FF` -/
+def C02_edgeWitness : List Str := [" FCC 'ÿ'\n"].map String.toList
+
+private def edgeCheck (a : Assembly) : Bool :=
   match a.stmts[0]? with
-  | some s => s.pkg.size == 2 && (stmtBytes s).isNone && a.image.isNone &&
-      (match s.pkg.additional with | .str x => x.any (fun c => decide (c.toNat ≥ 256)) | _ => false)
+  | some s => (stmtBytes s).map List.length == some s.pkg.size && (stmtBytes s).bind List.getLast? == some 0xFF &&
+      a.image.isSome
   | none => false
 
-theorem C02_fcc_wide_counterexample :
-    ∃ a s, assemble [] C02_wideWitness = .ok a ∧ a.stmts[0]? = some s ∧ s.pkg.size = 2 ∧ stmtBytes s = none ∧
-      a.image = none := by
-  obtain ⟨a, ha, hchk⟩ := checkProgram_sound (lines := C02_wideWitness) (check := wideCheck) (by decide +kernel) []
-  unfold wideCheck at hchk
+theorem C02_fcc_edge_example :
+    ∃ a s b, assemble [] C02_edgeWitness = .ok a ∧ a.stmts[0]? = some s ∧ stmtBytes s = some b ∧
+      b.length = s.pkg.size ∧ b.getLast? = some 0xFF := by
+  obtain ⟨a, ha, hchk⟩ := checkProgram_sound (lines := C02_edgeWitness) (check := edgeCheck) (by decide +kernel) []
+  unfold edgeCheck at hchk
   split at hchk
   · rename_i s hs
-    simp only [Bool.and_eq_true, beq_iff_eq, Option.isNone_iff_eq_none] at hchk
-    exact ⟨a, s, ha, hs, hchk.1.1.1, hchk.1.1.2, hchk.1.2⟩
+    simp only [Bool.and_eq_true, beq_iff_eq] at hchk
+    cases hb : stmtBytes s with
+    | none => rw [hb] at hchk; simp at hchk
+    | some b =>
+      rw [hb] at hchk
+      exact ⟨a, s, b, ha, hs, hb, by simpa using hchk.1.1, by simpa using hchk.1.2⟩
   · cases hchk
-
-/-- hence the unconditional statement is false (on input outside the ASCII domain) -/
-theorem C02_BytesEqSize_Statement_false : ¬ C02_BytesEqSize_Statement := by
-  intro hC
-  obtain ⟨a, s, ha, hs, _, hb, _⟩ := C02_fcc_wide_counterexample
-  have := hC [] _ a ha s (List.mem_of_getElem? hs)
-  rw [hb] at this
-  cases this
 
 /-! ### non-vacuity -/
 
@@ -425,10 +470,11 @@ theorem C02_size_example :
 
 /-! ### ORG with a symbol (former finding B9, repaired) -/
 
-/-- `resolve_symbols` and `translate` on `ORG SYM` where `SYM` is bound to the number `n`: the preset address is `n` -/
+/-- `resolve_symbols` and `translate` on `ORG SYM` where `SYM` is bound to the (non-negative) number `n`: the preset
+address is `n` -/
 theorem C02_org_symbol_translate {o : Operand} {row : Gen.InstrRow} {t : SymTab} {name : Str} {m mm : Mode}
-    {n : Nat} {hh : Option Nat} {neg : Bool} (hk : o.kind = .pseudo) (hm : row.mnemonic = "ORG")
-    (hv : o.value = .symbol name m) (ht : t.get? name = some (.numeric n hh mm neg)) (hn : n ≤ 65535) :
+    {n : Nat} {hh : Option Nat} (hk : o.kind = .pseudo) (hm : row.mnemonic = "ORG")
+    (hv : o.value = .symbol name m) (ht : t.get? name = some (.numeric n hh mm false)) (hn : n ≤ 65535) :
     ∃ o' p, resolveOperand o row t = .ok o' ∧ translateOperand o' row = .ok p ∧ p.address.int? = some n ∧
       p.address.isNumeric = true := by
   have hres : (Value.symbol name m).resolve t = numericOfInt n none .none := by
@@ -457,6 +503,44 @@ theorem C02_org_symbol_translate {o : Operand} {row : Gen.InstrRow} {t : SymTab}
     have e3 : (("ORG" : String) == "RMB") = false := by decide
     have e4 : (("ORG" : String) == "ORG") = true := by decide
     simp [hm, e1, e2, e3, e4, bind, Except.bind, pure, Except.pure, Value.isNumeric, Value.isNegative]
+
+/-- ... and where `SYM` is bound to a negative number (`S EQU -5`; the sign is kept since batch B2): "not an
+address", `translate` raises OperandTypeError -/
+theorem C02_org_symbol_negative {o : Operand} {row : Gen.InstrRow} {t : SymTab} {name : Str} {m mm : Mode}
+    {n : Nat} {hh : Option Nat} (hk : o.kind = .pseudo) (hm : row.mnemonic = "ORG")
+    (hv : o.value = .symbol name m) (ht : t.get? name = some (.numeric n hh mm true)) (hn0 : 0 < n) :
+    ∃ o', resolveOperand o row t = .ok o' ∧ translateOperand o' row = .error .operandType := by
+  have hres : (Value.symbol name m).resolve t = numericOfInt (-(n : Int)) none .none := by
+    unfold Value.resolve
+    simp [ht, Value.isAddress, Value.isNumeric]
+  have hex : ∃ h1 m1, numericOfInt (-(n : Int)) none .none = .ok (.numeric n h1 m1 true) := by
+    unfold numericOfInt
+    rw [if_neg (by omega)]
+    have h2 : (-(n : Int) < 0) := by omega
+    simp only [h2, decide_true, Int.natAbs_neg, Int.natAbs_natCast]
+    exact ⟨_, _, rfl⟩
+  obtain ⟨h1, m1, hv'⟩ := hex
+  refine ⟨{ o with value := .numeric n h1 m1 true }, ?_, ?_⟩
+  · unfold resolveOperand
+    have e : (("ORG" : String) == "FCB" || ("ORG" : String) == "FDB" || ("ORG" : String) == "RMB" ||
+        ("ORG" : String) == "ORG") = true := by decide
+    simp only [hk, hm, e, if_true, hv, Value.isSymbol, Bool.true_or]
+    rw [hres, hv']
+    rfl
+  · unfold translateOperand
+    simp only [hk]
+    unfold translatePseudo
+    have e1 : (("ORG" : String) == "FCB") = false := by decide
+    have e2 : (("ORG" : String) == "FDB") = false := by decide
+    have e3 : (("ORG" : String) == "RMB") = false := by decide
+    have e4 : (("ORG" : String) == "ORG") = true := by decide
+    simp [hm, e1, e2, e3, e4, bind, Except.bind, pure, Except.pure, Value.isNumeric, Value.isNegative, throw,
+      throwThe, MonadExceptOf.throw]
+
+/-- `S EQU -5`, `ORG S`: a diagnostic ("[S] is not an address") -/
+theorem C02_org_symbol_negative_diag (fs : Files) :
+    assemble fs (["S EQU -5\n", " ORG S\n", " NOP\n"].map String.toList) = .diag :=
+  diagProgram_sound (by decide +kernel) fs
 
 theorem assignAddrs_preset {l l' : List Stmt} {a : Nat} (h : assignAddrs l a = .ok l') :
     PW (fun s s' => s.preset = true → s' = s) l l' := by
